@@ -1,7 +1,7 @@
 SPECIFICATION Spec
 CONSTANTS
-  MaxC = 3
+  MaxC = 4
   MaxV = 2
-  MaxT = 4
+  MaxT = 5
   MaxP = 2
 CHECK_DEADLOCK FALSE
